@@ -261,6 +261,7 @@ struct Frame
 // The UCI-level statement of C03: `perft` and `go` work on / copy the engine's current position; `hash` and `printboard`
 // must print the same before and after them.
 std::atomic<uint64_t> g_c03_visits{0};
+constexpr uint64_t C03_VISIT_CAP = 20000;
 void c03_cap_cb(int point, engine::Search* s)
 {
     if (point != engine::verif::NODE && point != engine::verif::QNODE) return;
@@ -331,10 +332,115 @@ bool c03_uci_bracket(Tape& t, Report& rep)
     return true;
 }
 
+// perft is a nested make/unmake sequence on the UCI position: it must leave EVERY observable of the position as it was,
+// including the ones `hash` and `printboard` do not show (the game history behind the repetition answers).  Metamorphic
+// relation over two sessions that differ only in a `perft k` between `position` and `go`: the search output is the same.
+// The game ends with a shuffle (a b a' b') and the search is restricted to `a`, the move that repeats an earlier position,
+// so the result depends on the history.
+bool c03_uci_transparency(Tape& t, Report& rep)
+{
+    rigns::Rig& R = rigns::rig();
+    engine::verif::callback = &c03_cap_cb;
+    gen::Root root = gen::gen_root(t, &rep, 40);
+    ref::Pos P = root.cur;
+    std::vector<ref::Move> extra;
+    auto quiet_piece_moves = [&](const ref::Pos& p) {
+        std::vector<ref::Move> v;
+        for (auto& m : ref::legal_moves(p))
+            if (ref::lower(p.b[m.from]) != 'p' && !ref::is_capture(p, m) && !ref::is_castle(p, m)) v.push_back(m);
+        return v;
+    };
+    for (int attempt = 0; attempt < 6 && extra.empty(); ++attempt)
+    {
+        std::vector<ref::Move> qa = quiet_piece_moves(P);
+        if (qa.empty()) break;
+        ref::Move a = qa[t.choose(uint32_t(qa.size()))];
+        ref::Pos Pa = ref::make(P, a);
+        std::vector<ref::Move> qb = quiet_piece_moves(Pa);
+        if (qb.empty()) continue;
+        ref::Move b = qb[t.choose(uint32_t(qb.size()))];
+        ref::Pos Pab = ref::make(Pa, b);
+        ref::Move ar{a.to, a.from, 0}, brv{b.to, b.from, 0};
+        std::vector<ref::Move> l1 = ref::legal_moves(Pab);
+        if (std::find(l1.begin(), l1.end(), ar) == l1.end()) continue;
+        ref::Pos Paba = ref::make(Pab, ar);
+        std::vector<ref::Move> l2 = ref::legal_moves(Paba);
+        if (std::find(l2.begin(), l2.end(), brv) == l2.end()) continue;
+        ref::Pos back = ref::make(Paba, brv);
+        if (ref::key4(back) != ref::key4(P) || back.half > 140) continue;  // rights or ep changed: not a repetition
+        extra = {a, b, ar, brv};
+        P = back;
+    }
+    std::vector<ref::Move> legal = ref::legal_moves(P);
+    if (legal.empty()) return true;
+    std::string cmd = "position fen " + ref::to_fen(root.start);
+    if (!root.moves.empty() || !extra.empty()) cmd += " moves";
+    for (auto& m : root.moves) cmd += " " + m.uci();
+    for (auto& m : extra) cmd += " " + m.uci();
+    int d = 1 + int(t.choose(3)), k = 1 + int(t.choose(2));
+    std::string go = "go depth " + std::to_string(d) + " searchmoves " + (extra.empty() ? legal[t.choose(uint32_t(legal.size()))].uci() : extra[0].uci());
+    bool capped = false;
+    auto session = [&](bool withPerft, std::string& result) -> bool {
+        R.send("ucinewgame");
+        R.send(cmd);
+        size_t mark = R.out.size();
+        if (withPerft)
+        {
+            R.send("perft " + std::to_string(k));
+            if (R.out.wait_line(mark, [](const std::string& l) { return l.rfind("Speed:", 0) == 0; }, 300000) < 0) return false;
+            mark = R.out.size();
+        }
+        g_c03_visits = 0;
+        R.send(go);
+        if (R.out.wait_line(mark, rigns::is_bestmove, 300000) < 0)
+        {
+            R.send("stop");
+            R.out.wait_line(mark, rigns::is_bestmove, 300000);
+            return false;
+        }
+        std::string lastInfo, best;
+        for (auto& l : R.out.snapshot(mark))
+        {
+            if (l.rfind("info depth ", 0) == 0)
+            {
+                auto sp = l.find(" score "), np = l.find(" nodes "), pv = l.find(" pv ");
+                lastInfo = l.substr(0, sp == std::string::npos ? l.size() : np) + (pv == std::string::npos ? "" : l.substr(pv));
+            }
+            if (rigns::is_bestmove(l)) best = l;
+        }
+        result = lastInfo + " | " + best;
+        capped |= g_c03_visits.load() >= C03_VISIT_CAP;
+        return true;
+    };
+    std::string r1, r2;
+    bool ok1 = session(false, r1), ok2 = session(true, r2);
+    rep.eval();
+    rep.cls("c03:uci_perft_transparency");
+    if (!extra.empty()) rep.cls("c03:uci_perft_transparency_with_repetition_history");
+    rep.decoded = cmd + " ; [perft " + std::to_string(k) + " ;] " + go;
+    if (!ok1 || !ok2)
+    {
+        rep.cls("c03:uci_transparency_inconclusive");
+        return true;
+    }
+    if (capped)
+    {
+        rep.cls("c03:uci_transparency_inconclusive");
+        return true;
+    }
+    if (!extra.empty()) rep.nontriv(fnv1a(rep.decoded));
+    if (r1 != r2)
+        return rep.fail("undo:uci:perft_changes_later_search", "the same search gives a different result when a `perft " + std::to_string(k) +
+                                                                   "` is run between `position` and `go`: perft did not leave the position (its game history) as it was\n without perft: " + r1 +
+                                                                   "\n with perft   : " + r2 + "\n session: " + rep.decoded);
+    return true;
+}
+
 bool prop_C03(Tape& t, Report& rep)
 {
     br::init_engine();
     if (t.chance(1, 40)) return c03_uci_bracket(t, rep);
+    if (t.chance(1, 40)) return c03_uci_transparency(t, rep);
     gen::Root root = gen::gen_root(t, &rep, 60);
     rep.decoded = root.describe();
     const bool viaReplay = !root.moves.empty() && t.flag();
